@@ -105,5 +105,14 @@ class Recorder:
     def snaps_at(self, label: str) -> list[dict]:
         return [s for s in self.snaps if s["label"] == label]
 
+    def record_snaps(self, period: int) -> list[dict]:
+        """state at the moment Output.update was entered, for the steps at which a record is due
+        (step % period == 0); relies only on the abstract BaseOutput interface (update)"""
+        return [s for s in self.snaps if s["label"] == "output.pre" and s["step"] is not None
+                and s["step"] >= 0 and s["step"] % period == 0]
+
+    def records_due(self, period: int) -> int:
+        return len([c for c in self.calls if c[0] == "output" and c[1] == "update" and c[2] >= 0 and c[2] % period == 0])
+
     def snap_by_step(self, label: str) -> dict:
         return {s["step"]: s for s in self.snaps if s["label"] == label}
